@@ -271,6 +271,7 @@ fn fuzz_stage(ctx: &mut Ctx, exe: &Path) {
             .arg("-timeout=30")
             .arg("-rss_limit_mb=6000")
             .arg("-reload=1")
+            .arg(format!("-dict={}", verif_dir().join("harness/fuzz/dict.txt").display()))
             .arg(format!("-artifact_prefix={}/w{}-", art.display(), w))
             .env("VP_FUZZ_PROP", &id)
             .env("VP_FUZZ_STATS", work.join(format!("stats-{}.json", w)))
